@@ -559,6 +559,14 @@ package table
 //@   at-return requires old(info.RouteServerClient) ==> ret0 == original
 //@   at-return requires !old(info.RouteServerClient) ==> ret0 != nil && fresh(ret0)
 
+// from C11 "messages have the same effect as the changes applied one at a time": the packers keep the last change
+// per key and emit withdrawals first, so the key has to be what the receiver identifies a route by - the local
+// path id is part of it only when ADD-PATH is sent for the family
+//@ props C11
+//@ func CreateUpdateMsgFromPaths
+//@   claims at-call
+//@   at-call path.GetLocalKey() requires bgp.IsAddPathEnabled(false, path.GetFamily(), options)
+
 // the same for AGGREGATOR: once its AS is held as a 4-octet number the attribute is 8 octets long
 //@ props C11
 //@ spec wfAgg(a bgp.PathAttributeInterface) bool = typeOf(a) == (*bgp.PathAttributeAggregator) && a.(*bgp.PathAttributeAggregator) != nil && a.(*bgp.PathAttributeAggregator).Value.Askind == reflect.Uint32 ==> a.(*bgp.PathAttributeAggregator).Length == 8
